@@ -28,7 +28,7 @@ LEVEL_TEXT = ('Reference state-machine monitor over an exhaustive (bounded) enum
               'options, observing pass counts, hook calls, every cell before/after; exploration bounded by sequence length.')
 LEVEL_NOTE = 'Trusted: the 60-line reference machine in fsicverif/scripted.py; the scripted workload applies outcomes identically on both sides.'
 TECHNIQUE = 'scripted-model workload + reference state machine + call log and state snapshots (runtime monitor)'
-PAIRS = [(a, b) for a in scripted.FINITE_OUT for b in ('same', 'big')]
+PAIRS = [(a, b) for a in scripted.FINITE_OUT for b in ('same', 'big')] + [('huge', 'huge')]
 
 
 def nshards(tier):
